@@ -64,6 +64,19 @@ def handle (j : Json) : Json :=
       return Json.mkObj [("argv", strsToJson argv), ("bindings", Json.arr (bs.map bindToJson).toArray),
                          ("last_writer", Json.arr (lastW.map bindToJson).toArray),
                          ("pinned_mounts", strsToJson (Container.mountArgsPinned flag bs))]
+    | "lmod_history" =>
+      -- runs: [{mods, caller, text}] where text = what the lmod executable prints for (mods, caller)
+      let runs ← (← getArr j "runs").toList.mapM (fun r => do
+        let mods ← (← getArr r "mods").toList.mapM (fun x => do return (← x.getStr?).toList)
+        let caller ← (← getArr r "caller").toList.mapM pairOfJson
+        return ((⟨mods, caller⟩ : Lmod.Run), (← getStr r "text").toList))
+      let load : Lmod.Loader := fun mods caller =>
+        match runs.find? (fun rt => rt.1.mods == mods && rt.1.caller == caller) with
+        | some rt => rt.2
+        | none => []
+      let h := runs.map (·.1)
+      return Json.mkObj [("tree", Json.arr ((Lmod.runObj (Lmod.stepTree load) () h).map pairsToJson).toArray),
+                         ("memo", Json.arr ((Lmod.runObj (Lmod.stepMemo load) none h).map pairsToJson).toArray)]
     | "rc_fails" =>
       let rc ← j.getObjValAs? Int "rc"
       let t ← match (← getStr j "env") with
